@@ -2,7 +2,7 @@
 # confirm one seeded change in a scratch worktree at the CURRENT /repo HEAD:
 #  (a) patch applies, compiles, existing suite green; (b) demo fails with it; (c) demo passes without it
 p=$1; k=$2
-src=/tmp/seeded/$p/$k
+src=${SEED_ROOT:-/tmp/seeded}/$p/$k
 wt=/tmp/cf-$p-$k
 out=$src/confirm.txt
 rm -rf $wt; git -C /repo worktree add -q --detach $wt HEAD || exit 1
